@@ -46,8 +46,7 @@ OBLIGATIONS = [
     "SkVerif.C13.phase_after_fit",
     "SkVerif.C13.detrend_roundtrip",
     "SkVerif.C13.detrend_trend_is_function_of_label",
-    "SkVerif.C13.detrend_update_without_refit_keeps_trend_partial",
-    "SkVerif.C13.detrend_update_earlier_batch_moves_trend",
+    "SkVerif.C13.detrend_update_without_refit_keeps_trend",
     "SkVerif.C13.boxcox_roundtrip",
     "SkVerif.C13.adaptor_roundtrip",
     "SkVerif.C13.index_preserved",
@@ -95,12 +94,9 @@ LEVEL_TEXT = ("proof for the model: alignment of the seasonal component for ever
               "hypothesis); index preservation of the tagged transformers and of HampelFilter; fit_transform = fit;transform; shift equivariance of "
               "every call and history of every modelled transformer incl. HampelFilter; a successful re-fit forgets the object's history (same parameters "
               "=> same results as a fresh object); tie to the code by differential correspondence over call histories")
-LEVEL_NOTE = ("PARTIAL in one place: 'a Detrender.update(update_params=False) changes no later transform / inverse_transform result' is proved only for "
-              "batches that do not start before the first remembered time point; the negation is proved at a witness and reproduced on the real code as "
-              "a KNOWN-FINDING (PolynomialTrendForecaster._predict reads the regression origin from the current _y.index[0]; patch proposed). "
-              "All other clauses are proved at full strength for the model of the code after the fixes 1ad9b8f (Deseasonalizer keeps its phase reference across "
-              "update and failed re-fit) and bc08df8 (HampelFilter reads windows by position); the witnesses of the fixed defects stay in the corpus and "
-              "re-introducing either defect makes the oracle fail. Observed only (oracle on real code, no model): Imputer, ACF/PACF, cos. Library code "
+LEVEL_NOTE = ("All clauses are proved at full strength for the model of the code after the fixes 1ad9b8f (Deseasonalizer keeps its phase reference across "
+              "update and failed re-fit) and bc08df8 (HampelFilter reads windows by position), b2363ba (Detrender.update checks the fitted state) and ea521a6 (PolynomialTrendForecaster keeps the origin of its time axis from fit); the witnesses of the fixed defects stay in the corpus and "
+              "re-introducing any of these defects makes the oracle fail. Observed only (oracle on real code, no model): Imputer, ACF/PACF, cos. Library code "
               "(statsmodels decomposition, scipy Box-Cox, sklearn transformers, seasonality test) enters as data / uninterpreted functions.")
 TECHNIQUE = "Lean 4 executable model + universally quantified theorems (induction, invariants over operation lists); differential correspondence + property oracle on real call histories"
 
